@@ -266,7 +266,7 @@ func main() {
 	enc := json.NewEncoder(bw)
 	rng := rand.New(rand.NewSource(*seed))
 	cfg := world.DefaultCfg()
-	cfg.Off = map[string]bool{"roottypename": true, "dupkey": true, "dirid": true, "fragdirs": true}
+	cfg.Off = map[string]bool{"dirid": true, "fragdirs": true}
 	for wi := 0; wi < *worlds; wi++ {
 		w := world.Gen(rng, cfg, int(*seed)*1000+wi)
 		w.Fill()
